@@ -137,7 +137,8 @@ def run(ctx: Ctx) -> None:
                 for t in tg:
                     if isinstance(t, ast.Subscript) and isinstance(t.slice, ast.Constant) and t.slice.value == "weight":
                         n2 += 1
-                        ok = f.fullname in ("geneticengine.grammar.grammar:Grammar.update_weights",) or f.fullname.startswith("geneticengine.grammar.decorators:weight")
+                        from .common import weight_writers
+                        ok = f.fullname in weight_writers(prog)
                         ctx.ob("C10.R2", f, n, "store to a production weight", ok,
                                "" if ok else "production weights are rewritten outside the weight decorator / update_weights")
     ctx.floor("C10.R2", n2, 6, "construction calls and weight stores")
